@@ -273,6 +273,7 @@ func (c *Conn) ExecWALTx(tx WalTx) (res TxResult, err error) {
 	db := c.DB
 	w := &db.Wal
 	res.Image = db.Img
+	c.CommitReturned = false
 	if err = c.OpenWAL(); err != nil {
 		return res, err
 	}
@@ -404,6 +405,7 @@ func (c *Conn) ExecWALTx(tx WalTx) (res TxResult, err error) {
 		return res, err
 	}
 	res.Committed = true
+	c.CommitReturned = true
 	return res, nil
 }
 
